@@ -99,8 +99,7 @@ func (x *Exec) enterLoopHeader(cfg *Config, f *Frame, from, to *ssa.BasicBlock, 
 		f.block = to
 		env := loopEnv()
 		for _, inv := range spec.Invariants {
-			t := x.specBool(env, inv.E)
-			x.oblige(cfg, fmt.Sprintf("%sloop%d-inv-%s", lname, ord, kind), x.clauseLabel(inv), t, x.clauseProps(inv, nil), to.Instrs[0].Pos())
+			x.obligeParts(cfg, env, fmt.Sprintf("%sloop%d-inv-%s", lname, ord, kind), x.clauseLabel(inv), inv.E, x.clauseProps(inv, nil), to.Instrs[0].Pos())
 		}
 		if kind == "preserved" && spec.Decreases != nil && active.hasDec {
 			d := x.specTerm(env, spec.Decreases.E)
